@@ -7,7 +7,6 @@ import (
 	"strconv"
 	"strings"
 
-	"github.com/skycoin/skycoin/src/cipher"
 	"github.com/skycoin/skycoin/src/cipher/encoder"
 	"github.com/skycoin/skycoin/src/coin"
 	"github.com/skycoin/skycoin/src/visor"
@@ -198,7 +197,9 @@ func ledgerExec1(op string) string {
 			txns[i] = uts[i].Transaction
 			anns[i] = annTxn(&txns[i], nil, headHeader(n))
 		}
-		b, err := n.v.CreateBlockFromTxns(txns, when)
+		// the publisher's OWN createBlock: it gathers the pool itself (the annotations above list the whole pool
+		// for the model), selects deterministically and signs with the configured key
+		sb, err := n.v.VerifCreateBlock(when)
 		out := fmt.Sprintf("NP%d", len(uts))
 		if len(anns) > 0 {
 			out += " " + strings.Join(anns, " ")
@@ -206,7 +207,6 @@ func ledgerExec1(op string) string {
 		if err != nil {
 			return out + " R" + errCode(err)
 		}
-		sb := coin.SignedBlock{Block: b, Sig: cipher.MustSignHash(b.HashHeader(), secKey)}
 		lastMade = &sb
 		return out + " Rok " + annBlock(&sb, headHeader(n)) + " X" + encodeBlock(&sb)
 	case "checkdb":
